@@ -1637,7 +1637,7 @@ class Interp:
             it += 1
             if it > bound:
                 if (q, ordn) in self.cfg.unroll:
-                    raise PathAbort()      # bounded mode: paths longer than the bound are not examined
+                    raise LoopCutEnd()     # iterations beyond the bound are not examined (first-iteration / bounded lemmas)
                 raise Unsupported('while loop without invariant exceeded %d iterations in %s' % (bound, q))
             try:
                 self.block(s.body, fr)
